@@ -1,35 +1,87 @@
 /-
-The job invariant over abstract projections, and how it survives the five things that happen to a job: it is taken from
-its queue, put back at the front, finished or destroyed, created held (sync_immediate), created queued.
+The job invariant over abstract projections, and how it survives what can happen to a job: it is taken from its queue,
+put back at the front, finished or destroyed, created held (sync_immediate), created queued, or touched by its runner.
+
+`R a`   = the job activity `a` is running and the queue it runs it for;
+`J j`   = phase and queue of job `j`;   `Q q` = the job list of queue `q`;   `O j` = is job `j` open (begun and not ended).
 -/
 import DesyncModel.Inv.JobProj
 namespace Desync
 open Gen
 
-/-- the job invariant over abstract projections: which job each activity runs, phase and queue of each job, job list of each queue -/
-structure JobInvF (R : Nat → Option (Nat × Nat)) (J : Nat → Option (Phase × Nat)) (Q : Nat → Option (List Nat)) : Prop where
+structure JobInvF (R : Nat → Option (Nat × Nat)) (J : Nat → Option (Phase × Nat)) (Q : Nat → Option (List Nat)) (O : Nat → Bool) : Prop where
   run1 : ∀ a j q, R a = some (j, q) → J j = some (.held a, q)
   run2 : ∀ a j q, J j = some (.held a, q) → R a = some (j, q)
   queued : ∀ q l j, Q q = some l → j ∈ l → J j = some (.queued, q)
   nodup : ∀ q l, Q q = some l → l.Nodup
+  member : ∀ j q, J j = some (.queued, q) → ∃ l, Q q = some l ∧ j ∈ l
+  /-- an open job is in the hands of a runner, or it is the head of its queue (a suspended future operation) -/
+  open1 : ∀ j, O j = true → (∃ a q, J j = some (.held a, q)) ∨ (∃ q l, J j = some (.queued, q) ∧ Q q = some (j :: l))
+  /-- while a job of a queue is in the hands of a runner no queued job of that queue is open -/
+  open4 : ∀ j1 j2 a q, J j1 = some (.held a, q) → J j2 = some (.queued, q) → O j2 = false
 
-theorem JobInvF.retire {R R' J J' Q} {a j q : Nat} {ph : Phase} (h : JobInvF R J Q)
+/-- at most one job per queue is in the hands of a runner (supplied by the run-right invariant) -/
+def HeldExcl (J : Nat → Option (Phase × Nat)) : Prop :=
+  ∀ j1 j2 a1 a2 q, J j1 = some (.held a1, q) → J j2 = some (.held a2, q) → j1 = j2
+
+theorem JobInvF.frameO {R J Q O O'} (h : JobInvF R J Q O)
+    (hO : ∀ i, O' i = true → O i = true ∨ ∃ a q, J i = some (.held a, q)) : JobInvF R J Q O' := by
+  obtain ⟨h1, h2, h3, h4, h5, h6, h7⟩ := h
+  refine ⟨h1, h2, h3, h4, h5, ?_, ?_⟩
+  · intro j hj
+    rcases hO j hj with ho | ⟨a, q, hh⟩
+    · exact h6 j ho
+    · exact Or.inl ⟨a, q, hh⟩
+  · intro j1 j2 a q hh hq
+    cases hx : O' j2 with
+    | false => rfl
+    | true =>
+      rcases hO j2 hx with ho | ⟨a', q', hh'⟩
+      · have := h7 j1 j2 a q hh hq; rw [ho] at this; cases this
+      · rw [hq] at hh'; cases hh'
+
+theorem JobInvF.retire {R R' J J' Q O O'} {a j q : Nat} {ph : Phase} (h : JobInvF R J Q O)
     (hold : R a = some (j, q)) (hph : ∀ b, ph ≠ .held b) (hphq : ph ≠ .queued)
     (hR : ∀ b, R' b = if b = a then none else R b)
-    (hJ : ∀ i, J' i = if i = j then some (ph, q) else J i) : JobInvF R' J' Q := by
-  obtain ⟨h1, h2, h3, h4⟩ := h
-  refine ⟨?_, ?_, ?_, h4⟩
+    (hJ : ∀ i, J' i = if i = j then some (ph, q) else J i)
+    (hO : ∀ i, O' i = if i = j then false else O i) : JobInvF R' J' Q O' := by
+  obtain ⟨h1, h2, h3, h4, h5, h6, h7⟩ := h
+  have hja := h1 a j q hold
+  refine ⟨?_, ?_, ?_, h4, ?_, ?_, ?_⟩
   · grind
   · grind
   · grind
+  · intro i q' hi
+    rw [hJ] at hi
+    split at hi
+    · simp at hi; exact absurd hi.1 hphq
+    · exact h5 i q' hi
+  · intro i hi
+    rw [hO] at hi
+    split at hi
+    · cases hi
+    · next hne =>
+      rcases h6 i hi with ⟨a', q', hh⟩ | ⟨q', l, hq', hl⟩
+      · exact Or.inl ⟨a', q', by rw [hJ]; simp [hne, hh]⟩
+      · exact Or.inr ⟨q', l, by rw [hJ]; simp [hne, hq'], hl⟩
+  · intro j1 j2 a' q' hh hq'
+    rw [hJ] at hh hq'
+    split at hh
+    · simp at hh; exact absurd hh.1 (hph a')
+    · split at hq'
+      · simp at hq'; exact absurd hq'.1 hphq
+      · next hne2 => rw [hO]; simp [hne2]; exact h7 j1 j2 a' q' hh hq'
 
-theorem JobInvF.requeue {R R' J J' Q Q'} {a j q : Nat} (h : JobInvF R J Q)
-    (hold : R a = some (j, q))
+theorem JobInvF.requeue {R R' J J' Q Q' O} {a j q : Nat} {l0 : List Nat} (h : JobInvF R J Q O) (hx : HeldExcl J)
+    (hold : R a = some (j, q)) (hq0 : Q q = some l0)
     (hR : ∀ b, R' b = if b = a then none else R b)
     (hJ : ∀ i, J' i = if i = j then some (.queued, q) else J i)
-    (hQ : ∀ i, Q' i = if i = q then (Q q).map (j :: ·) else Q i) : JobInvF R' J' Q' := by
-  obtain ⟨h1, h2, h3, h4⟩ := h
-  refine ⟨?_, ?_, ?_, ?_⟩
+    (hQ : ∀ i, Q' i = if i = q then some (j :: l0) else Q i) : JobInvF R' J' Q' O := by
+  obtain ⟨h1, h2, h3, h4, h5, h6, h7⟩ := h
+  have hja := h1 a j q hold
+  have hjl : j ∉ l0 := by
+    intro hm; have := h3 q l0 j hq0 hm; rw [hja] at this; simp at this
+  refine ⟨?_, ?_, ?_, ?_, ?_, ?_, ?_⟩
   · grind
   · grind
   · intro q' l j' hl hm
@@ -37,43 +89,65 @@ theorem JobInvF.requeue {R R' J J' Q Q'} {a j q : Nat} (h : JobInvF R J Q)
     split at hl
     · next e =>
       subst e
-      cases hq : Q q' with
-      | none => simp [hq] at hl
-      | some l0 =>
-        simp [hq] at hl; subst hl
-        rcases List.mem_cons.mp hm with hm | hm
-        · subst hm; grind
-        · have := h3 q' l0 j' hq hm
-          have := h1 a j q' hold
-          grind
-    · have := h3 q' l j' hl hm
-      have := h1 a j q hold
-      grind
+      simp at hl; subst hl
+      rcases List.mem_cons.mp hm with hm1 | hm1
+      · rw [hJ]; simp [hm1]
+      · have hq1 := h3 q' l0 j' hq0 hm1
+        have hne : j' ≠ j := by intro e; rw [e] at hm1; exact hjl hm1
+        rw [hJ]; simp [hne]; exact hq1
+    · next hne' =>
+      have hq1 := h3 q' l j' hl hm
+      have hne : j' ≠ j := by intro e; rw [e, hja] at hq1; simp at hq1
+      rw [hJ]; simp [hne]; exact hq1
   · intro q' l hl
     rw [hQ] at hl
     split at hl
-    · cases hq : Q q with
-      | none => simp [hq] at hl
-      | some l0 =>
-        simp [hq] at hl; subst hl
-        have hn := h4 q l0 hq
-        have : j ∉ l0 := by
-          intro hm
-          have := h3 q l0 j hq hm
-          have := h1 a j q hold
-          grind
-        exact List.nodup_cons.mpr ⟨this, hn⟩
+    · simp at hl; subst hl; exact List.nodup_cons.mpr ⟨hjl, h4 q l0 hq0⟩
     · exact h4 q' l hl
+  · intro i q' hi
+    rw [hJ] at hi
+    split at hi
+    · next e =>
+      simp at hi; subst hi
+      exact ⟨j :: l0, by rw [hQ]; simp, by simp [e]⟩
+    · obtain ⟨l, hl, hm⟩ := h5 i q' hi
+      by_cases hqq : q' = q
+      · subst hqq; rw [hq0] at hl; simp at hl; subst hl
+        exact ⟨j :: l0, by rw [hQ]; simp, by simp [hm]⟩
+      · exact ⟨l, by rw [hQ]; simp [hqq, hl], hm⟩
+  · intro i hi
+    by_cases hij : i = j
+    · subst hij
+      exact Or.inr ⟨q, l0, by rw [hJ]; simp, by rw [hQ]; simp⟩
+    · rcases h6 i hi with ⟨a', q', hh⟩ | ⟨q', l, hq', hl⟩
+      · exact Or.inl ⟨a', q', by rw [hJ]; simp [hij, hh]⟩
+      · by_cases hqq : q' = q
+        · subst hqq
+          have := h7 j i a q' hja hq'
+          rw [hi] at this; cases this
+        · exact Or.inr ⟨q', l, by rw [hJ]; simp [hij, hq'], by rw [hQ]; simp [hqq, hl]⟩
+  · intro j1 j2 a' q' hh hq'
+    rw [hJ] at hh hq'
+    split at hh
+    · simp at hh
+    · next hne1 =>
+      split at hq'
+      · next e =>
+        simp at hq'; subst hq'
+        have := hx j1 j a' a q hh hja
+        exact absurd this hne1
+      · exact h7 j1 j2 a' q' hh hq'
 
-theorem JobInvF.take {R R' J J' Q Q'} {a j q : Nat} {rest : List Nat} (h : JobInvF R J Q)
+theorem JobInvF.take {R R' J J' Q Q' O} {a j q : Nat} {rest : List Nat} (h : JobInvF R J Q O)
     (hidle : R a = none) (hhead : Q q = some (j :: rest))
     (hR : ∀ b, R' b = if b = a then some (j, q) else R b)
     (hJ : ∀ i, J' i = if i = j then some (.held a, q) else J i)
-    (hQ : ∀ i, Q' i = if i = q then some rest else Q i) : JobInvF R' J' Q' := by
-  obtain ⟨h1, h2, h3, h4⟩ := h
+    (hQ : ∀ i, Q' i = if i = q then some rest else Q i) : JobInvF R' J' Q' O := by
+  obtain ⟨h1, h2, h3, h4, h5, h6, h7⟩ := h
   have hn := h4 q _ hhead
   have hjq := h3 q _ j hhead (by simp)
-  refine ⟨?_, ?_, ?_, ?_⟩
+  have hjr : j ∉ rest := (List.nodup_cons.mp hn).1
+  refine ⟨?_, ?_, ?_, ?_, ?_, ?_, ?_⟩
   · grind
   · grind
   · intro q' l j' hl hm
@@ -83,37 +157,101 @@ theorem JobInvF.take {R R' J J' Q Q'} {a j q : Nat} {rest : List Nat} (h : JobIn
       subst e
       simp at hl; subst hl
       have hq1 := h3 q' _ j' hhead (by simp [hm])
-      have hne : j' ≠ j := by intro e; subst e; exact (List.nodup_cons.mp hn).1 hm
+      have hne : j' ≠ j := by intro e; rw [e] at hm; exact hjr hm
       rw [hJ]; simp [hne]; exact hq1
     · next hne' =>
       have hq1 := h3 q' l j' hl hm
       have hne : j' ≠ j := by
-        intro e; subst e; rw [hjq] at hq1; simp at hq1; exact hne' hq1.symm
+        intro e; rw [e, hjq] at hq1; simp at hq1; exact hne' hq1.symm
       rw [hJ]; simp [hne]; exact hq1
   · intro q' l hl
     rw [hQ] at hl
     split at hl
     · simp at hl; subst hl; exact (List.nodup_cons.mp hn).2
     · exact h4 q' l hl
+  · intro i q' hi
+    rw [hJ] at hi
+    split at hi
+    · simp at hi
+    · next hne =>
+      obtain ⟨l, hl, hm⟩ := h5 i q' hi
+      by_cases hqq : q' = q
+      · subst hqq; rw [hhead] at hl; simp at hl; subst hl
+        rcases List.mem_cons.mp hm with e | hm1
+        · exact absurd e hne
+        · exact ⟨rest, by rw [hQ]; simp, hm1⟩
+      · exact ⟨l, by rw [hQ]; simp [hqq, hl], hm⟩
+  · intro i hi
+    by_cases hij : i = j
+    · subst hij; exact Or.inl ⟨a, q, by rw [hJ]; simp⟩
+    · rcases h6 i hi with ⟨a', q', hh⟩ | ⟨q', l, hq', hl⟩
+      · exact Or.inl ⟨a', q', by rw [hJ]; simp [hij, hh]⟩
+      · by_cases hqq : q' = q
+        · subst hqq; rw [hhead] at hl; simp at hl; exact absurd hl.1.symm hij
+        · exact Or.inr ⟨q', l, by rw [hJ]; simp [hij, hq'], by rw [hQ]; simp [hqq, hl]⟩
+  · intro j1 j2 a' q' hh hq'
+    rw [hJ] at hh hq'
+    split at hq'
+    · simp at hq'
+    · next hne2 =>
+      split at hh
+      · simp at hh
+        obtain ⟨rfl, rfl⟩ := hh
+        -- j2 is queued in q and is not the old head: it cannot be open
+        cases ho : O j2 with
+        | false => rfl
+        | true =>
+          exfalso
+          rcases h6 j2 ho with ⟨a', q', hh'⟩ | ⟨q', l, hq2, hl⟩
+          · rw [hq'] at hh'; simp at hh'
+          · rw [hq'] at hq2; simp at hq2; subst hq2
+            rw [hhead] at hl; simp at hl; exact hne2 hl.1.symm
+      · exact h7 j1 j2 a' q' hh hq'
 
-theorem JobInvF.newHeld {R R' J J' Q} {a n q : Nat} (h : JobInvF R J Q)
-    (hidle : R a = none) (hfresh : J n = none)
+theorem JobInvF.newHeld {R R' J J' Q O O'} {a n q : Nat} (h : JobInvF R J Q O)
+    (hidle : R a = none) (hfresh : J n = none) (hempty : Q q = some [])
     (hR : ∀ b, R' b = if b = a then some (n, q) else R b)
-    (hJ : ∀ i, J' i = if i = n then some (.held a, q) else J i) : JobInvF R' J' Q := by
-  obtain ⟨h1, h2, h3, h4⟩ := h
-  refine ⟨?_, ?_, ?_, h4⟩
+    (hJ : ∀ i, J' i = if i = n then some (.held a, q) else J i)
+    (hO : ∀ i, i ≠ n → O' i = O i) : JobInvF R' J' Q O' := by
+  obtain ⟨h1, h2, h3, h4, h5, h6, h7⟩ := h
+  refine ⟨?_, ?_, ?_, h4, ?_, ?_, ?_⟩
   · grind
   · grind
   · grind
+  · intro i q' hi
+    rw [hJ] at hi
+    split at hi
+    · simp at hi
+    · exact h5 i q' hi
+  · intro i hi
+    by_cases hin : i = n
+    · subst hin; exact Or.inl ⟨a, q, by rw [hJ]; simp⟩
+    · rw [hO i hin] at hi
+      rcases h6 i hi with ⟨a', q', hh⟩ | ⟨q', l, hq', hl⟩
+      · exact Or.inl ⟨a', q', by rw [hJ]; simp [hin, hh]⟩
+      · exact Or.inr ⟨q', l, by rw [hJ]; simp [hin, hq'], hl⟩
+  · intro j1 j2 a' q' hh hq'
+    rw [hJ] at hh hq'
+    split at hq'
+    · simp at hq'
+    · next hne2 =>
+      rw [hO j2 hne2]
+      split at hh
+      · simp at hh
+        obtain ⟨rfl, rfl⟩ := hh
+        obtain ⟨l, hl, hm⟩ := h5 j2 _ hq'
+        rw [hempty] at hl; simp at hl; subst hl; cases hm
+      · exact h7 j1 j2 a' q' hh hq'
 
-theorem JobInvF.newQueued {R J J' Q Q'} {n q : Nat} {l0 : List Nat} (h : JobInvF R J Q)
+theorem JobInvF.newQueued {R J J' Q Q' O O'} {n q : Nat} {l0 : List Nat} (h : JobInvF R J Q O)
     (hfresh : J n = none) (hq : Q q = some l0)
     (hJ : ∀ i, J' i = if i = n then some (.queued, q) else J i)
-    (hQ : ∀ i, Q' i = if i = q then some (l0 ++ [n]) else Q i) : JobInvF R J' Q' := by
-  obtain ⟨h1, h2, h3, h4⟩ := h
+    (hQ : ∀ i, Q' i = if i = q then some (l0 ++ [n]) else Q i)
+    (hO : ∀ i, O' i = if i = n then false else O i) : JobInvF R J' Q' O' := by
+  obtain ⟨h1, h2, h3, h4, h5, h6, h7⟩ := h
   have hnl : n ∉ l0 := by
     intro hm; have := h3 q l0 n hq hm; rw [hfresh] at this; cases this
-  refine ⟨?_, ?_, ?_, ?_⟩
+  refine ⟨?_, ?_, ?_, ?_, ?_, ?_, ?_⟩
   · grind
   · grind
   · intro q' l j' hl hm
@@ -140,5 +278,35 @@ theorem JobInvF.newQueued {R J J' Q Q'} {n q : Nat} {l0 : List Nat} (h : JobInvF
       simp at hy; subst hy
       intro e; subst e; exact hnl hx
     · exact h4 q' l hl
+  · intro i q' hi
+    rw [hJ] at hi
+    split at hi
+    · next e => simp at hi; subst hi; exact ⟨l0 ++ [n], by rw [hQ]; simp, by simp [e]⟩
+    · obtain ⟨l, hl, hm⟩ := h5 i q' hi
+      by_cases hqq : q' = q
+      · subst hqq; rw [hq] at hl; simp at hl; subst hl
+        exact ⟨l0 ++ [n], by rw [hQ]; simp, by simp [hm]⟩
+      · exact ⟨l, by rw [hQ]; simp [hqq, hl], hm⟩
+  · intro i hi
+    rw [hO] at hi
+    split at hi
+    · cases hi
+    · next hin =>
+      rcases h6 i hi with ⟨a', q', hh⟩ | ⟨q', l, hq', hl⟩
+      · exact Or.inl ⟨a', q', by rw [hJ]; simp [hin, hh]⟩
+      · by_cases hqq : q' = q
+        · subst hqq; rw [hq] at hl; simp at hl; subst hl
+          exact Or.inr ⟨q', l ++ [n], by rw [hJ]; simp [hin, hq'], by rw [hQ]; simp⟩
+        · exact Or.inr ⟨q', l, by rw [hJ]; simp [hin, hq'], by rw [hQ]; simp [hqq, hl]⟩
+  · intro j1 j2 a' q' hh hq'
+    rw [hO]
+    split
+    · rfl
+    · next hne2 =>
+      rw [hJ] at hh hq'
+      simp only [hne2, ↓reduceIte] at hq'
+      split at hh
+      · simp at hh
+      · exact h7 j1 j2 a' q' hh hq'
 
 end Desync
